@@ -23,6 +23,7 @@
 
 #include <chrono>
 #include <condition_variable>
+#include <exception>
 #include <mutex>
 #include <thread>
 #include <type_traits>
@@ -98,12 +99,26 @@ class _after_op<Duration, Receiver>::type final : task_base {
     auto& self = *static_cast<type*>(t);
     self.cancelCallback_.destruct();
     if constexpr (is_stop_never_possible_v<stop_token_type_t<Receiver&>>) {
-      unifex::set_value(static_cast<Receiver&&>(self.receiver_));
+      if constexpr (is_nothrow_receiver_of_v<Receiver>) {
+        unifex::set_value(static_cast<Receiver&&>(self.receiver_));
+      } else {
+        UNIFEX_TRY { unifex::set_value(static_cast<Receiver&&>(self.receiver_)); }
+        UNIFEX_CATCH(...) {
+          unifex::set_error(static_cast<Receiver&&>(self.receiver_), std::current_exception());
+        }
+      }
     } else {
       if (get_stop_token(self.receiver_).stop_requested()) {
         unifex::set_done(static_cast<Receiver&&>(self.receiver_));
       } else {
-        unifex::set_value(static_cast<Receiver&&>(self.receiver_));
+        if constexpr (is_nothrow_receiver_of_v<Receiver>) {
+          unifex::set_value(static_cast<Receiver&&>(self.receiver_));
+        } else {
+          UNIFEX_TRY { unifex::set_value(static_cast<Receiver&&>(self.receiver_)); }
+          UNIFEX_CATCH(...) {
+            unifex::set_error(static_cast<Receiver&&>(self.receiver_), std::current_exception());
+          }
+        }
       }
     }
   }
@@ -168,12 +183,26 @@ class _at_op<Receiver>::type final : task_base {
     auto& self = *static_cast<type*>(p);
     self.cancelCallback_.destruct();
     if constexpr (is_stop_never_possible_v<stop_token_type_t<Receiver&>>) {
-      unifex::set_value(static_cast<Receiver&&>(self.receiver_));
+      if constexpr (is_nothrow_receiver_of_v<Receiver>) {
+        unifex::set_value(static_cast<Receiver&&>(self.receiver_));
+      } else {
+        UNIFEX_TRY { unifex::set_value(static_cast<Receiver&&>(self.receiver_)); }
+        UNIFEX_CATCH(...) {
+          unifex::set_error(static_cast<Receiver&&>(self.receiver_), std::current_exception());
+        }
+      }
     } else {
       if (get_stop_token(self.receiver_).stop_requested()) {
         unifex::set_done(static_cast<Receiver&&>(self.receiver_));
       } else {
-        unifex::set_value(static_cast<Receiver&&>(self.receiver_));
+        if constexpr (is_nothrow_receiver_of_v<Receiver>) {
+          unifex::set_value(static_cast<Receiver&&>(self.receiver_));
+        } else {
+          UNIFEX_TRY { unifex::set_value(static_cast<Receiver&&>(self.receiver_)); }
+          UNIFEX_CATCH(...) {
+            unifex::set_error(static_cast<Receiver&&>(self.receiver_), std::current_exception());
+          }
+        }
       }
     }
   }
